@@ -278,6 +278,8 @@ SEED_NOT_REACHED = {
     'C05-B': 'numerical behaviour of the Raman solver grid (interpolation at the fibre end): not a structural property',
     'C03-A5': 'beta2 rewritten into an algebraically identical expression that overflows int64 for integer-typed frequencies: the value '
               'graph works over the reals (DESIGN.md 9: floating point / machine integers are ignored)',
+    'C01-B6': 'a float-promoting outer(ones, x) replaced by x itself: identical over the reals, integer-typed baud rates then overflow '
+              'int64 when squared (machine integers are ignored, as for C03-A5)',
 }
 
 
